@@ -123,7 +123,9 @@ def to_hypergraph(data, create_using=None):
             lil_matrix,
         ),
     ):
-        from_incidence_matrix(data, create_using)
+        result = from_incidence_matrix(data, create_using)
+        if not isinstance(create_using, Hypergraph):
+            return result
 
     else:
         raise XGIError("Input data has unsupported type.")
